@@ -100,7 +100,8 @@ PROPS['C07'] = {
                    'completion with a scripted body (arbitrary sequence of ZF outcomes) against the architectural loop',
     'bounds': 'kernels: loop-free, all states; REP protocol: CX <= 3 (quick) / CX <= 8 (thorough), unwinding assertions on; larger CX outside the claim',
     'outside': 'word elements at offset 0xFFFF (second byte: physical successor vs. wrap) -- totality for them is C09; the driver loop that re-parses on REPEAT is played by the harness (reduction order validated natively)',
-    'backends': [(r'rep_protocol|mnemonic|^c07s_', ['sat', 'z3']), (r'.*', [('z3', 'cvc5'), 'sat-arrays'])],
+    'backends': [(r'rep_protocol|mnemonic|^c07s_', ['sat', 'z3']), (r'^c07d_', [('z3', 'cvc5'), 'sat-arrays']), (r'.*', [('z3', 'cvc5'), 'sat-arrays'])],
+    'timeout': {'quick': 600, 'thorough': 2400},
     'assumptions': ['REP harness: the string kernel is replaced by a scripted body passed as the semantic value of string_instructions (the productions receive the kernel as a value); the kernels themselves are the A-harnesses'],
     'level_text': 'bounded model checking: kernels for every state; prefix protocol for every CX within the bound and every sequence of comparison outcomes',
     'level_note': 'trusted: Kani/CBMC/solver soundness; CX beyond the bound is outside the claim',
